@@ -9,7 +9,7 @@ FINE = st.one_of(QUARTERS, QUARTERS, st.integers(0, 2048).map(lambda k: k / 1024
 
 @st.composite
 def programs(draw, kinds=("mutex",), max_actors=5, max_ops=10, max_mutex=3, max_sem=3, max_cond=2, max_bar=2, mc=False,
-             min_actors=2, profile="uniform"):
+             min_actors=2, profile="uniform", platform=None):
     """kinds: subset of mutex, sem, cond, barrier, mailbox, random.  Returns a scenario (platform = one host with enough cores).
     mc=True: only operations of the reference interleaving semantics (vf/refsem.py): no observation of kernel state, no timed
     semaphore acquisition, positive condition-variable timeouts only."""
@@ -51,6 +51,16 @@ def programs(draw, kinds=("mutex",), max_actors=5, max_ops=10, max_mutex=3, max_
         choices += ["put", "get", "put", "get"]
     if "random" in kinds:
         choices += ["mc_random"]
+    if "exec" in kinds:
+        choices += ["exec", "exec"]
+    if "async" in kinds and nmb:
+        choices += ["put_async", "get_async", "wait_h", "test_h"]
+    nmq = 0
+    if "mess" in kinds:
+        nmq = 1
+        objects["mqueue"] = 1
+        choices += ["mq_put", "mq_get"]
+    nh = [0]          # handles are global to the scenario: each one is created by exactly one operation
     if "cond" in kinds:
         choices += ["cv_wait", "cv_wait_for", "cv_wait_for", "notify_one", "notify_all", "notify_locked"]
     if "barrier" in kinds:
@@ -68,6 +78,7 @@ def programs(draw, kinds=("mutex",), max_actors=5, max_ops=10, max_mutex=3, max_
     for ai in range(nact):
         ops = []
         held = {}
+        myh = []
         ntry = 0
         n = draw(st.integers(1, max_ops))
         for _ in range(n):
@@ -147,9 +158,29 @@ def programs(draw, kinds=("mutex",), max_actors=5, max_ops=10, max_mutex=3, max_
                 mb = draw(st.integers(0, nmb - 1))
                 if profile == "contention" and role.setdefault((ai, mb), k) != k:
                     continue     # an actor is either a sender or a receiver of a mailbox (a blocking put to oneself never ends)
-                ops.append(["put", mb, 0, {}] if k == "put" else ["get", mb, {}])
+                size = 0 if mc else draw(st.sampled_from([0, 1, 512, 4096, 100000]))
+                ops.append(["put", mb, size, {}] if k == "put" else ["get", mb, {}])
             elif k == "mc_random":
                 ops.append(["mc_random", 0, draw(st.integers(1, 2))])
+            elif k == "exec":
+                ops.append(["exec", draw(st.sampled_from([0.0, 256.0, 512.0, 1024.0, 1536.0, 3000.0])), {}])
+            elif k in ("put_async", "get_async"):
+                h = ai * 100 + len(myh)
+                mb = draw(st.integers(0, nmb - 1))
+                if k == "put_async":
+                    ops.append(["put_async", mb, draw(st.sampled_from([0, 1, 512, 4096, 100000])), {}, h])
+                else:
+                    ops.append(["get_async", mb, h, {}])
+                myh.append(h)
+            elif k in ("wait_h", "test_h"):
+                if not myh:
+                    continue
+                h = draw(st.sampled_from(myh))
+                ops.append(["wait", h, {}] if k == "wait_h" else ["test", h])
+            elif k == "mq_put":
+                ops.append(["mq_put", 0, {}])
+            elif k == "mq_get":
+                ops.append(["mq_get", 0, {}])
         # give back what is still held, most of the time
         if draw(st.integers(0, 4)) < 4:     # (0 = the value Hypothesis prefers = give everything back)
             for m in sorted(held):
@@ -194,4 +225,9 @@ def programs(draw, kinds=("mutex",), max_actors=5, max_ops=10, max_mutex=3, max_
                 nr = sum(1 for a in actors for o in a["ops"] if o[0] == "release" and o[1] == si)
                 if objects["sem"][si] + nr < na:
                     objects["sem"][si] = na - nr
+    if platform is not None:
+        hosts = [h["name"] for h in platform["hosts"]]
+        for i, a in enumerate(actors):
+            a["host"] = hosts[i % len(hosts)]
+        return {"platform": platform, "objects": objects, "actors": actors}
     return {"platform": s4u.sync_platform(1, cores=8), "objects": objects, "actors": actors, "quiet": ["adv", "act"]}
